@@ -29,6 +29,9 @@ FORBIDDEN = re.compile(
     re.M,
 )
 
+if str(ROOT) not in sys.path:
+    sys.path.insert(0, str(ROOT))
+
 # make /repo importable even if the editable install is missing
 if str(REPO) not in sys.path:
     sys.path.insert(0, str(REPO))
@@ -56,6 +59,7 @@ class Build:
         self.gen_files: dict[str, str] = {}
         self.log = ""
         self.wall = 0.0
+        self.notes: list[str] = []
 
 
 def strip_comments(src: str) -> str:
@@ -121,6 +125,14 @@ def run_generators(gens, build: Build):
             build.gen_files[rel] = hashlib.sha256(content.encode()).hexdigest()[:16]
 
 
+def driver_generators():
+    import gen.consts
+    import gen.ff
+    import gen.topology
+
+    return [gen.topology.generate, gen.ff.generate, gen.consts.generate]
+
+
 def build_and_audit(pid: str, gens=(), extra_targets=()) -> Build:
     """Regenerate Gen files, build the driver + Props module, audit axioms."""
     b = Build()
@@ -128,6 +140,12 @@ def build_and_audit(pid: str, gens=(), extra_targets=()) -> Build:
     lock = lean_lock()
     try:
         run_generators(gens, b)
+        # the driver links every generated table: regenerate the others too, but a translator
+        # problem there is not this property's business (the previous file, if any, is kept)
+        other = Build()
+        run_generators([g for g in driver_generators() if g not in gens], other)
+        b.gen_files.update(other.gen_files)
+        b.notes = other.problems
         props_mod = f"P2P.Props.{pid}"
         targets = ["driver", props_mod, *extra_targets]
         r = subprocess.run(["lake", "build", *targets], cwd=LEAN, capture_output=True, text=True)
